@@ -83,6 +83,21 @@ def sparse_cases(ctx, thorough):
         for _ in range(rng.range(1, 5)):
             b[rng.below(64)] = rng.choice([rng.range(-2048, 2047), rng.range(-100, 100)])
         blocks.append(b)
+    # blocks whose intermediate results cancel exactly: two frequencies carrying equal or opposite coefficients in every
+    # row (column) they occupy - e.g. frequencies 0 and 4, whose table entries have equal magnitude, give exactly zero
+    # columns after the first pass - in both orientations, with one to eight occupied rows
+    for u1 in range(8):
+        for u2 in range(u1 + 1, 8):
+            for sgn in (1, -1):
+                for transpose in (False, True):
+                    for _ in range(8 if thorough else 3):
+                        b = [0] * 64
+                        for v in rng.sample(list(range(8)), rng.range(2, 8)):
+                            a = rng.choice([rng.range(-2048, 2047), rng.range(-300, 300), rng.range(-20, 20)]) or 5
+                            i1, i2 = (8 * v + u1, 8 * v + u2) if not transpose else (8 * u1 + v, 8 * u2 + v)
+                            b[i1] = a
+                            b[i2] = max(-2048, min(2047, sgn * a))
+                        blocks.append(b)
     return blocks
 
 
@@ -140,7 +155,7 @@ def run(ctx):
     ndiff = sum(1 for i in io if canon(mo.get(i, "")) != canon(io[i]))
     if ndiff:
         broken.append("correspondence idct (sparse blocks): model and implementation differ on %d blocks" % ndiff)
-    ctx.count("idct-block (all 4096 DC-only blocks, a lone coefficient at every position x 9 amplitudes x {no DC, DC}, random first-row / first-column / sparse blocks)",
+    ctx.count("idct-block (all 4096 DC-only blocks, a lone coefficient at every position x 9 amplitudes x {no DC, DC}, random first-row / first-column / sparse blocks, blocks with exactly cancelling frequency pairs)",
               len(blocks), [("blk", i) for i in range(len(blocks))], sample={"coefficients": blocks[5000][:16]}, exhaustive=False)
     # blocks cut by a plane edge: the visible samples must equal those of the whole block (reported by the harness)
     for (suite, idx, c) in CROPS[:5]:
